@@ -557,6 +557,9 @@ func (h *history) run() {
 		}
 	}
 	if !h.s.dead[h.id] {
+		h.probeSweep()
+	}
+	if !h.s.dead[h.id] {
 		h.s.exec("dump", h.id)
 		h.s.exec("size", h.id)
 		h.s.exec("seq", h.id, "all", "0", "1")
@@ -590,6 +593,207 @@ func (h *history) run() {
 			h.s.exec("seq", h.id, "all", "0", "1")
 		}
 	}
+}
+
+
+// fanKeys returns a function from a branch byte to a key literal such that all 256 keys are siblings below one
+// inner node (nil when the kind has no such family for this variant).
+func fanKeys(spec string, r *rand.Rand) func(b int) string {
+	f := strings.Fields(spec)
+	switch f[0] {
+	case "alpha":
+		pre := pick(r, []string{"", "ab", strings.Repeat("p", 9), strings.Repeat("p", 10), strings.Repeat("p", 13)})
+		tail := pick(r, []string{"", "x", "xy"})
+		return func(b int) string {
+			if b == 0 {
+				return hexLit([]byte(pre)) // the terminator is the 256th sibling
+			}
+			return hexLit(append(append([]byte(pre), byte(b)), tail...))
+		}
+	case "num":
+		ty := f[1]
+		if ty == "f32" || ty == "f64" {
+			return nil
+		}
+		w := widthOf(ty)
+		pos := r.Intn(w / 8) // which byte varies (0 = least significant)
+		base := r.Uint64() & maskW(w) &^ (uint64(0xff) << uint(8*pos))
+		return func(b int) string { return bitsLit(base|uint64(b)<<uint(8*pos), w) }
+	case "comp":
+		fields := strings.Split(f[1], ",")
+		us := compUniverses(fields)
+		baseParts := strings.Split(us[0].next(r), ",")
+		// vary the first numeric field's low byte
+		for i, fd := range fields {
+			if fd == "s" || fd == "f32" || fd == "f64" {
+				continue
+			}
+			w := widthOf(fd)
+			i := i
+			base := parseBits(baseParts[i], w) &^ 0xff
+			return func(b int) string {
+				parts := append([]string{}, baseParts...)
+				parts[i] = bitsLit(base|uint64(b), w)
+				return strings.Join(parts, ",")
+			}
+		}
+	}
+	return nil
+}
+
+var boundaryBytes = []int{0x00, 0x01, 0x7f, 0x80, 0xfe, 0xff}
+
+// runFan drives one inner node through every size class upward and downward, keeping the boundary bytes
+// among the survivors so that every grow/shrink conversion has to carry them over.
+func (h *history) runFan(key func(b int) string) {
+	r := h.r
+	check := func() {
+		h.s.exec("dump", h.id)
+		h.s.exec("size", h.id)
+		h.s.exec("seq", h.id, "all", "0", "1")
+		h.s.exec("seq", h.id, "back", "0", "1")
+		h.s.exec("min", h.id)
+		h.s.exec("max", h.id)
+		for _, b := range boundaryBytes {
+			h.s.exec("get", h.id, key(b))
+		}
+		if h.cfg.alpha || h.cfg.numTy != "" || strings.HasPrefix(h.cfg.spec, "comp") {
+			a, b := key(boundaryBytes[r.Intn(len(boundaryBytes))]), key(r.Intn(256))
+			if !(h.cfg.alpha && b == "-") {
+				h.s.exec("seq", h.id, "range", a, b, "0", "1")
+			}
+		}
+		if h.cfg.alpha && key(1) != "-" {
+			p := unhex(key(1))
+			h.s.exec("seq", h.id, "prefix", hexLit(p[:len(p)-1-r.Intn(len(p))%len(p)]), "0", "1")
+		}
+	}
+	target := pick(r, []int{256, 256, 60, 49, 48, 17})
+	perm := r.Perm(256)
+	var in []int
+	inSet := map[int]bool{}
+	add := func(b int) {
+		if !inSet[b] && !h.s.dead[h.id] {
+			inSet[b] = true
+			in = append(in, b)
+			h.insert(key(b))
+		}
+	}
+	for _, b := range boundaryBytes {
+		add(b)
+	}
+	for _, b := range perm {
+		if len(in) >= target {
+			break
+		}
+		add(b)
+		if n := len(in); n == 5 || n == 17 || n == 49 {
+			check()
+		}
+	}
+	check()
+	isBoundary := func(b int) bool {
+		for _, x := range boundaryBytes {
+			if x == b {
+				return true
+			}
+		}
+		return false
+	}
+	// delete the ordinary bytes first, in random order
+	order := r.Perm(len(in))
+	for _, i := range order {
+		b := in[i]
+		if isBoundary(b) || h.s.dead[h.id] {
+			continue
+		}
+		h.remove(key(b))
+		delete(inSet, b)
+		if n := len(inSet); n == 38 || n == 37 || n == 36 || n == 13 || n == 12 || n == 11 || n == 7 {
+			check()
+		}
+		if len(inSet) == 30 && r.Intn(2) == 0 {
+			// re-grow across the 48/49 boundary once more
+			for _, nb := range r.Perm(256) {
+				if len(inSet) >= 52 {
+					break
+				}
+				if !inSet[nb] {
+					inSet[nb] = true
+					in = append(in, nb)
+					h.insert(key(nb))
+				}
+			}
+			check()
+		}
+	}
+	// what is left are boundary bytes (and re-grown ones): remove down to the collapse
+	for b := range inSet {
+		if !isBoundary(b) {
+			h.remove(key(b))
+			delete(inSet, b)
+		}
+	}
+	check()
+	for _, b := range boundaryBytes {
+		if len(inSet) <= 1 {
+			break
+		}
+		h.remove(key(b))
+		delete(inSet, b)
+		check()
+	}
+	h.feat["phase:grow"], h.feat["phase:shrink"] = true, true
+	h.s.tr.stats["fan-histories"]++
+}
+
+
+// probeSweep looks up (and tries to delete) keys that differ from a stored key in exactly one byte, for every
+// byte position: absent keys that diverge inside, at the end of, or beyond a compressed path.
+func (h *history) probeSweep() {
+	if strings.HasPrefix(h.cfg.spec, "comp") || len(h.order) == 0 {
+		return
+	}
+	r := h.r
+	keys := append([]string{}, h.order...)
+	r.Shuffle(len(keys), func(i, j int) { keys[i], keys[j] = keys[j], keys[i] })
+	if len(keys) > 8 {
+		keys = keys[:8]
+	}
+	for _, lit := range keys {
+		if lit == "nan" || lit == "-" {
+			continue
+		}
+		b := unhex(lit)
+		for i := 0; i < len(b) && i < 48 && !h.s.dead[h.id]; i++ {
+			c := append([]byte{}, b...)
+			c[i] ^= byte(1 + r.Intn(3))
+			if c[i] == 0 && h.cfg.alpha {
+				c[i] = 0x7e
+			}
+			m := hexLit(c)
+			if h.cfg.numTy != "" {
+				m = canonNum(h.cfg.numTy, m)
+			}
+			if _, ok := h.present[h.canonKey(m)]; ok {
+				continue
+			}
+			h.s.exec("get", h.id, m)
+			if i%3 == 0 {
+				h.remove(m)
+				h.s.exec("size", h.id)
+			}
+			h.s.tr.stats["probe-sweep"]++
+		}
+	}
+}
+
+func (h *history) canonKey(lit string) string {
+	c := h.s.trees[h.id].TranscriptLit(lit)
+	if h.cfg.numTy != "" {
+		c = canonNum(h.cfg.numTy, lit)
+	}
+	return c
 }
 
 // treeSpecs enumerates (spec, universes, metadata) for a kind family.
@@ -668,13 +872,28 @@ func runTreeMode(cfg treeRunCfg, tr *transcript) {
 			nextID++
 			s.newTree(nextID, hc.spec)
 			h := &history{s: s, r: r, id: nextID, cfg: hc, present: map[string]string{}, feat: map[string]bool{}}
-			h.uni = []universe{pick(r, hc.unis)}
+			// rotate through the universes so that a handful of histories already covers all of them over the seeds
+			h.uni = []universe{hc.unis[(i+int(cfg.seed)*7+len(fam))%len(hc.unis)]}
+			if fam == "alpha" && i == 0 {
+				// every run has one history over long shared runs
+				for _, u := range hc.unis {
+					if strings.HasPrefix(u.name, "U5stems") && (int(cfg.seed)%3 == 0 || u.name != "U5stems11") {
+						h.uni = []universe{u}
+						break
+					}
+				}
+			}
 			if r.Intn(3) == 0 {
 				h.uni = append(h.uni, pick(r, hc.unis))
 			}
-			tr.comment(fmt.Sprintf("history tree=%d spec=%q universe=%s ops=%d", nextID, hc.spec, h.uni[0].name, hc.ops))
-			tr.stats["uni:"+h.uni[0].name]++
-			h.run()
+			if fk := fanKeys(hc.spec, r); fk != nil && i%3 == 2 {
+				tr.comment(fmt.Sprintf("history tree=%d spec=%q fan-out", nextID, hc.spec))
+				h.runFan(fk)
+			} else {
+				tr.comment(fmt.Sprintf("history tree=%d spec=%q universe=%s ops=%d", nextID, hc.spec, h.uni[0].name, hc.ops))
+				tr.stats["uni:"+h.uni[0].name]++
+				h.run()
+			}
 			feats = append(feats, h.feat)
 			delete(s.trees, nextID)
 		}
